@@ -32,11 +32,7 @@ var _ = badger.ErrKeyNotFound
 // constructors used by the wiring: only their existence matters for the ordering obligations (bodies are not read here)
 // (storage/wal.NewBadgerWAL is verified in its own package)
 // (cluster.NewConn and storage/raft.NewTransport are verified in their own packages)
-//@ func storage.NewAllocator
-//@ props C14 C05
-//@ assume
-//@ ensures [a] ret != nil
-//@ modifies *
+// (storage.NewAllocator is verified in package storage)
 //@ func storage/raft.NewNodesManager
 //@ props C14 C05 C20
 //@ ensures [built] ret != nil && fresh(ret) && ret.clusterConn == clusterConn && ret.zeroGroup == zeroGroup
